@@ -319,7 +319,9 @@ fn main() {
     let run = Run::new("C15", "exploration");
     quiet_panics();
     let distinct = Distinct::default();
-    let budget = Budget::new(Duration::from_secs(run.tier.pick(52, 1700)));
+    // internal wall-clock cap; VERIF_BUDGET_S overrides it (self-tests on a loaded machine)
+    let budget_s = std::env::var("VERIF_BUDGET_S").ok().and_then(|s| s.parse().ok()).unwrap_or(run.tier.pick(52u64, 1700u64));
+    let budget = Budget::new(Duration::from_secs(budget_s));
 
     let full = grid(&[(Some(0.9), 90), (Some(0.3), 30), (Some(0.29), 29), (Some(0.1), 10), (None, 50)], &[0, 1, 2, 3, 4]);
     let reduced = grid(&[(Some(0.9), 90), (Some(0.3), 30), (Some(0.1), 10)], &[0, 1, 2, 4]);
@@ -355,7 +357,7 @@ fn main() {
     for &(g, from, to) in &plan {
         let t = grids[g].len();
         for k in from..=to {
-            let p = k.min(if k >= 8 { 3 } else { 2 });
+            let p = k.min(if k >= 9 { 4 } else if k >= 7 { 3 } else { 2 });
             let mut pre = vec![0usize; p];
             if p == 0 {
                 chunks.push(Chunk { grid: g, k, prefix: vec![] });
